@@ -74,6 +74,10 @@ type Sim struct {
 	// Provenance, when non-nil, receives (request, object identity, field) for
 	// every field a subgraph resolves: who supplied which datum (C07).
 	Provenance func(r *Request, obj any, field string)
+	// NullEntity, when it returns true, makes the subgraph answer null (without
+	// an error) for this entity in _entities - "not known here". The universe
+	// must hold null for every field that subgraph owns on the entity.
+	NullEntity func(subgraph int, typeName string, entity Obj) bool
 }
 
 func NewSim(l *Layout, u *Universe) (*Sim, error) {
@@ -405,6 +409,9 @@ func (r *sgResolver) entities(args map[string]any) any {
 		}
 		if found == nil {
 			r.req.Problems = append(r.req.Problems, fmt.Sprintf("representation does not identify any %s: %s", tn, refexec.Canon(rep)))
+			continue
+		}
+		if r.s.NullEntity != nil && r.s.NullEntity(r.rt.sg.Index, tn, found) {
 			continue
 		}
 		cp := Obj{}
